@@ -110,8 +110,11 @@ class CommandShowTitles : public DFS::CommandInterface
     bool ok = true;
     for (DFS::SurfaceSelector surface : todo)
       {
+	error.clear();
 	if (!show_title(storage, surface, error))
 	  {
+	    // Say why, since we're going to return a failure status.
+	    DFS::failed_to_mount_surface(std::cerr, surface, error);
 	    ok = false;
 	  }
       }
